@@ -134,7 +134,8 @@ def main(run):
     import deap.tools.emo as emomod
 
     run.rule = ("per operator: exhaustive tiny scopes (all populations over a 2-value grid with n<=3, all k, all draw scripts "
-                "where feasible) plus seeded random populations of 0..8 individuals, 1..4 objectives, mixed weight signs and "
+                "where feasible: best/worst, tournaments, lexicase orders, roulette/SUS with fitnesses {1,2} and all 3-bit draws, double "
+                "tournament on two individuals with draws on the thresholds, DCD with every first permutation of four) plus seeded random populations of 0..8 individuals, 1..4 objectives, mixed weight signs and "
                 "magnitudes {1,2,1/2}, tie-heavy value grids, sizes 0..4, k from 0 to n+3, tournament sizes 1..4, parsimony sizes "
                 "in [1,2], epsilon in {0,1/4,..,2}; roulette: full-wheel scripts (every cell of the unit interval once) and random "
                 "dyadic spins incl. exact boundaries; SUS: populations/k with exactly representable spacing, start draws incl. "
@@ -227,6 +228,8 @@ def main(run):
             return
         terms.append(term)
         cases.append(case)
+        per_op = run.extra_cov.setdefault("cases_per_operator", {})
+        per_op[case["op"]] = per_op.get(case["op"], 0) + 1
         run.note_case(case, nontrivial, sample=case if len(cases) % 211 == 1 else None)
 
     def key(w, row):
@@ -648,6 +651,31 @@ def main(run):
                         if ch == 0:
                             do_lex("eps", w, rows, [0] * n, 1, eps=Fr(1, 2), pscript=[perm], iscript=[ch + 1])
                             do_lex("auto", w, rows, [0] * n, 1, pscript=[perm], iscript=[ch + 1])
+
+    # roulette / SUS: n <= 3, fitnesses in {1,2}, every 3-bit draw; k in {1,2,4} (spacing always dyadic)
+    for n in (1, 2, 3):
+        for f in itertools.product([1, 2], repeat=n):
+            rows = [[Fr(x)] for x in f]
+            for j in range(8):
+                do_roulette([1], rows, [0] * n, 1, uscript=[Fr(j, 8)])
+            for k in (1, 2, 4):
+                for j in range(1, 8):
+                    do_sus([1], rows, [0] * n, k, uscript=[Fr(j, 8)])
+    # double tournament: two individuals, every choice script, draws on and around the thresholds
+    for vals in itertools.product(grid, repeat=2):
+        for szs in ([0, 1], [1, 1], [2, 1]):
+            for ff in (True, False):
+                for script in itertools.product(range(2), repeat=2):
+                    for u in (Fr(0), Fr(1, 2), Fr(5, 8), Fr(3, 4), Fr(7, 8)):
+                        for ps in ([Fr(3, 2)] if not T else [Fr(1), Fr(3, 2), Fr(7, 4), Fr(2)]):
+                            do_double([1], [[v] for v in vals], szs, 1, 1, ps, ff, iscript=list(script), uscript=[u])
+    # DCD: four individuals, k = 4, every first permutation
+    for rows, cds in (([[Fr(0), Fr(1)], [Fr(1), Fr(0)], [Fr(1), Fr(1)], [Fr(0), Fr(0)]], [0.5, 0.5, float("inf"), 0.0]),
+                      ([[Fr(1), Fr(1)]] * 4, [1.0, 1.0, 0.5, float("inf")])):
+        for p1 in itertools.permutations(range(4)):
+            for p2 in ([0, 1, 2, 3], [2, 0, 3, 1]) if not T else itertools.permutations(range(4)):
+                for u in (Fr(1, 2), Fr(5, 8)):
+                    do_dcd([1, -1], [list(r) for r in rows], [0] * 4, cds, 4, pscript=[list(p1), list(p2)], uscript=[u] * 4)
 
     # ---- known finding witness (replayed on every run) ----
     do_lex("eps", [1], [[Fr(1)], [Fr(3, 4)]], [0, 0], 1, eps=Fr(1, 2), pscript=[[0]], iscript=[1])
